@@ -70,4 +70,57 @@ theorem src_appendVersion_expected : src_appendVersion = ("{ for i := 0; i < 4; 
 
 theorem returns_getOriginMstName_expected : returns_getOriginMstName = (["nameWithVer", "nameWithVer[:len(nameWithVer)-5]"] : List String) := by rfl
 
+/-! ### the part protocol of the purge (lib/util/lifted/vm/mergeset/table.go)
+
+The Boolean facts are used by the model (`purgeParts`, `purgeRefused`, `beginMergeAt`); the
+statement lists and sources are what the transcription was made from. -/
+
+theorem steps_removeItemsByDelTsids_expected : steps_removeItemsByDelTsids = (["tb.partsLock.Lock()", "temp := tb.parts", "pws := make([]*partWrapper, 0)", "inMerge := 0", "for i := 0; i < len(temp); i++ { if temp[i].isInMerge { inMerge++ continue } if temp[i].isDeleteTsids { continue } temp[i].isDeleteTsids = true pws = append(pws, temp[i]) }", "tb.partsLock.Unlock()", "for _, pw := range pws { err := tb.filterByDelTsidAndGenNewPart(pw, delTsids) if err != nil { return err } }", "if inMerge > 0 { return fmt.Errorf(\"%d parts of %q are being merged: the items of deleted tsids in them are left for the next run\", inMerge, tb.path) }", "return nil"] : List String) := by rfl
+
+theorem src_purgeSkipConds_expected : src_purgeSkipConds = (["temp[i].isInMerge", "temp[i].isDeleteTsids"] : List String) := by rfl
+
+theorem purgeSkipsInMerge_expected : purgeSkipsInMerge = (true : Bool) := by rfl
+
+theorem purgeSkipsMarked_expected : purgeSkipsMarked = (true : Bool) := by rfl
+
+theorem purgeMarksSelected_expected : purgeMarksSelected = (true : Bool) := by rfl
+
+theorem purgeRefusesWhenInMerge_expected : purgeRefusesWhenInMerge = (true : Bool) := by rfl
+
+theorem purgeRefusesWhenMarked_expected : purgeRefusesWhenMarked = (false : Bool) := by rfl
+
+theorem purgeErrorPathUnmarks_expected : purgeErrorPathUnmarks = (false : Bool) := by rfl
+
+theorem src_removeItemsLastReturn_expected : src_removeItemsLastReturn = ("return nil" : String) := by rfl
+
+theorem steps_filterByDelTsid_expected : steps_filterByDelTsid = (["_, partDirName := filepath.Split(pw.p.path)", "tmpPartPath := filepath.Join(tb.path, \"tmp\", partDirName)", "lock := fileops.FileLockOption(tmpPartPath)", "_, ph, changed, err := tb.genTempPart(pw, delTsids, tmpPartPath)", "if err != nil { return err }", "if !changed { tb.partsLock.Lock() pw.isDeleteTsids = false tb.partsLock.Unlock() if err = fileops.RemoveAll(tmpPartPath, lock); err != nil { return fmt.Errorf(\"remove tmp part fail. tmp part path: %q, err: %w\", tmpPartPath, err) } return nil }", "var dstPartPath = \"\"", "if ph.itemsCount != 0 { partDirNames := strings.SplitN(partDirName, \"_\", 2) if len(partDirNames) != 2 { return fmt.Errorf(\"split part dir name [%s] fail. please check dir name format: x_xxxx_xxxx\", partDirName) } newPartDirName := fmt.Sprintf(\"%d_%s\", ph.itemsCount, partDirNames[1]) dstPartPath = filepath.Join(tb.path, newPartDirName) }", "var newPW *partWrapper = nil", "if ph.itemsCount != 0 { if err = fileops.RenameFile(tmpPartPath, dstPartPath, lock); err != nil { tb.partsLock.Lock() defer tb.partsLock.Unlock() pw.isDeleteTsids = false if e := fileops.RemoveAll(tmpPartPath, lock); e != nil { return fmt.Errorf(\"move tmp part files and remove tmp part fail. tmp part path: %q, err: %w\", tmpPartPath, e) } return fmt.Errorf(\"move tmp part files to new part files fail. tmp path: %q, new path: %q, err: %w\", tmpPartPath, dstPartPath, err) } newP, err := openFilePartFn(dstPartPath) if err != nil { return fmt.Errorf(\"cannot open new part %q: %w\", dstPartPath, err) } newPW = &partWrapper{ p: newP, refCount: 1, lock: tb.lock, } }", "m := make(map[*partWrapper]bool, 1)", "m[pw] = true", "removedParts := 0", "tb.partsLock.Lock()", "tb.parts, removedParts = removeParts(tb.parts, m)", "if newPW != nil { tb.parts = append(tb.parts, newPW) }", "tb.partsLock.Unlock()", "if removedParts != 1 { logger.Panicf(\"BUG: unexpected number of parts removed; got %d; want %d\", removedParts, 1) }", "var removeWG sync.WaitGroup", "if pw.mp == nil { pw.removeWG = &removeWG }", "removeWG.Add(1)", "pw.decRef()", "return nil"] : List String) := by rfl
+
+theorem purgeUnchangedClearsMark_expected : purgeUnchangedClearsMark = (true : Bool) := by rfl
+
+theorem purgeChangedReplacesPart_expected : purgeChangedReplacesPart = (true : Bool) := by rfl
+
+theorem purgeNewPartUnflagged_expected : purgeNewPartUnflagged = (true : Bool) := by rfl
+
+theorem src_newPartCond_expected : src_newPartCond = ("ph.itemsCount != 0" : String) := by rfl
+
+theorem src_genTempPartChanged_expected : src_genTempPartChanged = (["delTsids.Has(tsid)", "isDeleted(delTsids, item)"] : List String) := by rfl
+
+theorem src_isDeleted_expected : src_isDeleted = ("{ itemLen := len(item) if itemLen < separatorMarshaledUint64Len { return false } var tsidBytes []byte if item[0] == nsPrefixKeyToTSID && item[itemLen-separatorMarshaledUint64Len] == kvSeparatorChar { tsidBytes = item[itemLen-MarshaledUint64Len:] } else if item[0] == nsPrefixTSIDToKey { tsidBytes = item[1 : MarshaledUint64Len+1] } else if item[0] == nsPrefixTagToTSIDs { tsidBytes = item[itemLen-MarshaledUint64Len:] } else { return false } tsid := encoding.UnmarshalUint64(tsidBytes) return delTsids.Has(tsid) }" : String) := by rfl
+
+theorem mergeSkipsMarked_expected : mergeSkipsMarked = (true : Bool) := by rfl
+
+theorem mergeSkipsInMerge_expected : mergeSkipsInMerge = (true : Bool) := by rfl
+
+theorem mergeMarksPicked_expected : mergeMarksPicked = (true : Bool) := by rfl
+
+theorem mergeClearsInMergeDeferred_expected : mergeClearsInMergeDeferred = (true : Bool) := by rfl
+
+theorem steps_mergePublish_expected : steps_mergePublish = (["tb.partsLock.Lock()", "tb.parts, removedParts = removeParts(tb.parts, m)", "tb.parts = append(tb.parts, newPW)", "tb.partsLock.Unlock()"] : List String) := by rfl
+
+theorem steps_setLabelForDeletePart_expected : steps_setLabelForDeletePart = (["tb.partsLock.Lock()", "for i := 0; i < len(tb.parts); i++ { if tb.parts[i].isInMerge || tb.parts[i].isDeleteTsids { continue } tb.parts[i].isDeleteTsids = true }", "tb.partsLock.Unlock()"] : List String) := by rfl
+
+theorem steps_removeDeletedPart_expected : steps_removeDeletedPart = (["tb.partsLock.Lock()", "m := make(map[*partWrapper]bool)", "pws := make([]*partWrapper, 0)", "for i := 0; i < len(tb.parts); i++ { if tb.parts[i].isDeleteTsids { m[tb.parts[i]] = true pws = append(pws, tb.parts[i]) } }", "removedParts := 0", "tb.parts, removedParts = removeParts(tb.parts, m)", "tb.partsLock.Unlock()", "if removedParts != len(m) { logger.Panicf(\"BUG: unexpected number of parts removed; got %d; want %d\", removedParts, len(m)) }", "var removeWG sync.WaitGroup", "for _, pw := range pws { pw.removeWG = &removeWG removeWG.Add(1) pw.decRef() }", "removeWG.Wait()"] : List String) := by rfl
+
+theorem steps_clearCache_expected : steps_clearCache = (["if !idx.isOpen { return nil }", "idx.logger.Info(\"ClearCache\", zap.String(\"path\", idx.path))", "idx.mu.Lock()", "defer idx.mu.Unlock()", "idx.tb.DebugFlush()", "if err := idx.cache.reset(); err != nil { return err }", "return nil"] : List String) := by rfl
+
 end OG.C13.Facts
